@@ -34,6 +34,7 @@ func TestVerifC06(t *testing.T) {
 			c06NonZeroStart(rep, srv)
 			c06StartNumberOffset(rep, srv)
 			c06AfterStop(rep, srv)
+			c06WithAto(rep, srv)
 		}
 	}
 	job := 0
@@ -250,6 +251,57 @@ func c06AfterStop(rep *vh.Report, srv *Server) {
 				for _, per := range before.Periods {
 					if st, ok := have[per.ID]; !ok || st != per.Start {
 						rep.Violate("C06.a", "period-identity-after-stop:"+mode, fmt.Sprintf("%s: Period %q (start %s) of the MPD at 1029 s is not in the MPD after the stop time 1030 s (periods there: %v)", u, per.ID, per.Start, have), map[string]any{"url": u})
+						break
+					}
+				}
+			}
+		}
+	}
+}
+
+// c06WithAto: an availabilityTimeOffset of more than a segment (allowed with SegmentTimeline) lists segments that start
+// after "now": they too belong to exactly one period.
+func c06WithAto(rep *vh.Report, srv *Server) {
+	for _, mode := range []string{"segtimeline_1", "segtimelinenr_1"} {
+		for _, ato := range []string{"ato_3", "ato_10", "ato_1"} {
+			for _, t := range []int64{1_015_500, 1_017_500, 1_018_500, 1_019_500, 1_020_000, 1_021_000} {
+				mURL := fmt.Sprintf("%s/testpic_2s/Manifest.mpd?nowMS=%d", vCfgPrefix(mode, ato, "periods_60"), t)
+				sURL := fmt.Sprintf("%s/testpic_2s/Manifest.mpd?nowMS=%d", vCfgPrefix(mode, ato), t)
+				mr, sr := vGet(srv, mURL), vGet(srv, sURL)
+				rep.AddExecs(2)
+				rep.AddStates(1)
+				rep.Hit("C06.b")
+				if mr.Code != 200 || sr.Code != 200 {
+					continue
+				}
+				mm, err1 := vref.ParseMPD(mr.Body)
+				sm, err2 := vref.ParseMPD(sr.Body)
+				if err1 != nil || err2 != nil {
+					continue
+				}
+				ss, err1 := sm.TimelineSegs()
+				ms, err2 := mm.TimelineSegs()
+				if err1 != nil || err2 != nil {
+					continue
+				}
+				type key struct {
+					rep  string
+					time uint64
+				}
+				n := map[key]int{}
+				firstMS := int64(-1)
+				for _, x := range ms {
+					n[key{x.RepID, x.Time}]++
+					if firstMS < 0 || x.PeriodStartMS < firstMS {
+						firstMS = x.PeriodStartMS
+					}
+				}
+				for _, x := range ss {
+					if int64(x.Time)*1000 < firstMS*int64(x.TS) {
+						continue
+					}
+					if n[key{x.RepID, x.Time}] != 1 {
+						rep.Violate("C06.b", fmt.Sprintf("segment-in-%d-periods:%s:with-ato", n[key{x.RepID, x.Time}], x.Kind), fmt.Sprintf("%s: rep %s segment t=%d of the single-period MPD appears %d times in the multi-period MPD", mURL, x.RepID, x.Time, n[key{x.RepID, x.Time}]), map[string]any{"multi_url": mURL, "single_url": sURL})
 						break
 					}
 				}
